@@ -798,7 +798,7 @@ func TestVerif_C33(t *testing.T) {
 				r.Event("ints_read_back", 1)
 			}
 		})
-		v33BubbleTrouble(c, inner, outer)
+		vqsBubbleTrouble(c, inner, outer)
 	})
 
 	// --- round trip ---
@@ -931,7 +931,7 @@ func TestVerif_C33(t *testing.T) {
 				}
 			}
 		})
-		v33BubbleTrouble(c, inner, outer)
+		vqsBubbleTrouble(c, inner, outer)
 	})
 
 	// --- hostile ---
@@ -1032,7 +1032,7 @@ func TestVerif_C33(t *testing.T) {
 				}
 			}
 		})
-		v33BubbleTrouble(c, inner, outer)
+		vqsBubbleTrouble(c, inner, outer)
 	})
 
 	r.Require("ints_read_back", 10000)
@@ -1054,15 +1054,4 @@ func TestVerif_C33(t *testing.T) {
 	r.Require("fields_compared", 1000)
 	r.Require("trailing_frame_intact", 100)
 	r.Require("frame_cut_short_by_fin_rejected", 50)
-}
-
-// v33BubbleTrouble reports a panic that escaped the per-payload recover, or the bubble's own
-// failure (deadlock), for the batch.
-func v33BubbleTrouble(c *verifrt.Case, inner, outer string) {
-	if inner != "" {
-		first, _, _ := strings.Cut(inner, "\n")
-		c.Violation(vqsPanicKey(first, inner), "panic inside the bubble of %s/%d: %s", c.Stream, c.Index, inner)
-	} else if outer != "" {
-		c.Violation("bubble-failed", "synctest bubble of %s/%d failed: %s", c.Stream, c.Index, outer)
-	}
 }
